@@ -1041,9 +1041,17 @@ pub fn plan_b(rng: &mut Rng, cfg: &PlanCfg) -> ScenarioB {
                     match rng.below(if cfg.focus == Focus::Commands { 10 } else { 4 }) {
                         0 => {
                             let n = 1 + rng.usize(3);
-                            let v: Vec<usize> = (0..n)
+                            let mut v: Vec<usize> = (0..n)
                                 .map(|_| new_ord(rng, &mut ords, &mut filled_of, cfg.faults))
                                 .collect();
+                            // C03 only: an operator re-uses the client order id of an order that is
+                            // still tracked (cancel / replace with a deterministic id)
+                            if cfg.focus == Focus::Requests && !live.is_empty() && rng.chance(1, 5) {
+                                let o = *rng.pick(&live);
+                                if !v.contains(&o) {
+                                    v.push(o);
+                                }
+                            }
                             for o in &v {
                                 if ords[*o].ex < n_ex && link_mode[ords[*o].ex] == Some(LinkMode::Healthy) {
                                     requested.push(*o);
